@@ -142,12 +142,39 @@ pub fn render(t: &Tm) -> String {
 }
 
 pub fn owner_of(slice: &str) -> &'static str {
-    match slice { "cut" => "C02", "not" => "C03", "print" => "C04", _ => "C01" }
+    match slice { "cut" => "C02", "not" => "C03", "print" => "C04", "time" => "X01", _ => "C01" }
+}
+
+/// the text time(...) writes ("3 seconds 141 microseconds ") as the specification's token
+fn mask_time(s: &str) -> String {
+    let mut out = String::new();
+    let mut rest = s;
+    loop {
+        // find "<digits> second[s] <digits> microseconds "
+        let bytes = rest.as_bytes();
+        let mut found = None;
+        let mut i = 0;
+        while i < bytes.len() {
+            if bytes[i].is_ascii_digit() {
+                let mut j = i; while j < bytes.len() && bytes[j].is_ascii_digit() { j += 1; }
+                let tail = &rest[j..];
+                let after = if tail.starts_with(" seconds ") { Some(j + 9) } else if tail.starts_with(" second ") { Some(j + 8) } else { None };
+                if let Some(k) = after {
+                    let mut m = k; while m < bytes.len() && bytes[m].is_ascii_digit() { m += 1; }
+                    if m > k && rest[m..].starts_with(" microseconds ") { found = Some((i, m + 14)); break; }
+                }
+                i = j;
+            } else { i += 1; }
+        }
+        match found { Some((a, b)) => { out.push_str(&rest[..a]); out.push_str("<time>"); rest = &rest[b..]; } None => { out.push_str(rest); break; } }
+    }
+    out
 }
 
 pub fn props_of(case: &Value) -> Vec<&'static str> {
     if case["status"].as_str() != Some("ok") { return vec![]; }
     let slice = case["slice"].as_str().unwrap_or("");
+    if slice == "time" { return vec!["X01"]; }
     let mut v = vec![owner_of(slice), "C05", "C11", "C10"];
     if slice == "alias" { v.push("C08"); }
     if slice != "print" { v.push("C04"); }
@@ -189,7 +216,8 @@ pub fn replay(case: &Value) -> Vec<Obs> {
         else { obs.push(Obs::bad("C10", "make_query", format!("{} :: renamed query {}", what, show(&got)))); }
     }
 
-    let run = run_query(&kb, &query, n);
+    let mut run = run_query(&kb, &query, n);
+    if slice == "time" { for sg in run.segs.iter_mut() { sg.out = mask_time(&sg.out); } }
     let exp_at = |i: usize| -> Seg { if i < expect.len() { expect[i].clone() } else { Seg { out: String::new(), some: false, ans: vec![] } } };
     let first_part_ok = run.panic.is_none() && (0..expect.len()).all(|i| i < run.segs.len() && run.segs[i].some == exp_at(i).some && run.segs[i].ans == exp_at(i).ans);
     let out_ok = (0..expect.len()).all(|i| i < run.segs.len() && run.segs[i].out == exp_at(i).out);
